@@ -432,7 +432,26 @@ func evalAttemptModeB(src string, opts, optsB []risor.Option, repl map[object.Ob
 	}
 	var v object.Object
 	var err error
-	if mode == "sharedcode" {
+	if mode == "busyvm" {
+		// while the script runs on a VM of the host's, a host builtin it calls asks the SAME VM for another
+		// evaluation under the default configuration: that request is refused (the VM is running) and must not
+		// change what the running script can reach
+		machine, merr := vm.NewEmpty()
+		if merr != nil {
+			return N{"ok": false, "l": "harness: " + merr.Error(), "r": ""}
+		}
+		refused := ""
+		hold := object.NewBuiltin("zzhold", func(hctx context.Context, args ...object.Object) object.Object {
+			if _, herr := risor.Eval(hctx, "1", append([]risor.Option{risor.WithOS(vos), risor.WithVM(machine)}, baseOptions()...)...); herr != nil {
+				refused = herr.Error()
+			}
+			return object.Nil
+		})
+		v, err = risor.Eval(ctx, "zzhold()\n"+src, append(append([]risor.Option{}, all...), risor.WithVM(machine), risor.WithGlobal("zzhold", hold))...)
+		if err == nil && refused == "" {
+			return N{"ok": false, "l": "harness: the second evaluation on the busy VM was not refused", "r": ""}
+		}
+	} else if mode == "sharedcode" {
 		// the host compiles the script ONCE and runs the one code object under this configuration and under a
 		// second, more permissive one (same top-level names), each on a VM of its own; then it uses the first VM
 		// again (vm.Call of a function the script defined): what that function reaches is still decided by the
@@ -585,6 +604,9 @@ func caseWorker(req N) (resp N) {
 			}
 			if st == "dot" || st == "getattr" {
 				modes = append(modes, "sharedcode")
+			}
+			if st == "import" || st == "from" || st == "dot" {
+				modes = append(modes, "busyvm")
 			}
 			for _, mode := range modes {
 				o, repl := build()
